@@ -205,13 +205,45 @@ Theorem C14_spec_best_in_sound : forall (x e : Q) (p : Z) (q : positive), (Zpos 
 Proof. exact best_in_sound. Qed.
 Print Assumptions C14_spec_best_in_sound.
 
-(* for larger denominators check_spec establishes less: inside, and no denominator <= 400 is (minimality between 401 and
-   q is NOT judged on the implementation's observation; it rests on theorems (5)-(6) about the translated code) *)
-Definition C14_spec_best_in_large_statement : Prop := forall (x e : Q) (p : Z) (q : positive), (400 < Zpos q)%Z ->
+(* round 6: for larger denominators check_spec no longer searches (round 5: only "no denominator <= 400 is inside") but
+   decides minimality with the Farey-neighbour criterion (Spec.farey_minimal: a/b, (p-a)/(q-b) with p*b - a*q = 1 are the
+   neighbours of p/q among the fractions with a smaller denominator; both must lie outside the open interval).  The full
+   statement that round 5 could only record as an open -- then false -- proposition is now a theorem: *)
+Theorem C14_spec_best_in_large : forall (x e : Q) (p : Z) (q : positive), (400 < Zpos q)%Z ->
   best_in x e p (Zpos q) = true ->
   in_open x e (p # q) /\ forall (p' : Z) (q' : positive), in_open x e (p' # q') -> (q <= q')%positive.
-Theorem C14_spec_best_in_large_partial : forall (x e : Q) (p : Z) (q : positive), (400 < Zpos q)%Z ->
-  best_in x e p (Zpos q) = true ->
-  in_open x e (p # q) /\ forall (p' : Z) (q' : positive), in_open x e (p' # q') -> (400 < Zpos q')%Z.
 Proof. exact best_in_sound_large. Qed.
-Print Assumptions C14_spec_best_in_large_partial.
+Print Assumptions C14_spec_best_in_large.
+
+(* (13) hence for EVERY denominator: a tolerance-mode result (of _approximate_int, approximate_rational, from_float) that
+        check_spec accepts is a fraction of smallest denominator strictly inside (x - e, x + e), for all rationals x, e *)
+Theorem C14_spec_best_in_sound_all : forall (x e : Q) (p : Z) (q : positive),
+  best_in x e p (Zpos q) = true ->
+  in_open x e (p # q) /\ forall (p' : Z) (q' : positive), in_open x e (p' # q') -> (q <= q')%positive.
+Proof. exact best_in_sound_all. Qed.
+Print Assumptions C14_spec_best_in_sound_all.
+
+(* (14) ... and conversely every such fraction is accepted: the executable specification IS the property's definition
+        (no correct answer is rejected, no wrong one accepted), for all rationals x, e, all p and all denominators.
+        (Needs the Euclid loop of Spec.inv_mod to find the inverse within its fuel: ProofsSpec.inv_mod_spec.) *)
+Theorem C14_spec_best_in_exact : forall (x e : Q) (p : Z) (q : positive),
+  best_in x e p (Zpos q) = true <->
+  (in_open x e (p # q) /\ forall (p' : Z) (q' : positive), in_open x e (p' # q') -> (q <= q')%positive).
+Proof. exact best_in_exact. Qed.
+Print Assumptions C14_spec_best_in_exact.
+
+(* (15) from_float in tolerance mode -- the HAND MODEL of the glue around approximate_rational (Model.from_float: the
+        0 <= e <= 1 guards, reduction of x and e to numerator / denominator, the call, the result as a fraction; not
+        translated from the source, compared with the implementation case by case: CFromFloat): for every rational value
+        of the float and every tolerance in (0, 1] it returns the fraction of smallest denominator strictly inside
+        (x - e, x + e); a tolerance outside [0, 1] is rejected *)
+Theorem C14_from_float_tol_minimal : forall exact dec tol : Q, 0 < tol -> tol <= 1 ->
+  exists (p : Z) (q : positive), from_float exact dec (FFTol tol) = ORet (p # q) /\
+    in_open exact tol (p # q) /\ forall (p' : Z) (q' : positive), in_open exact tol (p' # q') -> (q <= q')%positive.
+Proof. exact from_float_tol_minimal. Qed.
+Print Assumptions C14_from_float_tol_minimal.
+
+Theorem C14_from_float_tol_rejects : forall exact dec tol : Q, tol < 0 \/ 1 < tol ->
+  from_float exact dec (FFTol tol) = OFail.
+Proof. exact from_float_tol_rejects. Qed.
+Print Assumptions C14_from_float_tol_rejects.
